@@ -1,5 +1,6 @@
 import IbModel.Model.Planner
 import IbModel.Model.Closures
+import IbModel.Generated.Tables
 /-!
 # C03 — plan optimisation never changes what a pipeline computes
 
@@ -166,5 +167,13 @@ theorem optimise_perm_ops (c : List (Node P)) : (opsOf (optimise c)).Perm (opsOf
 theorem optimiseNoReorder_keeps_ops (c : List (Node P)) : opsOf (optimiseNoReorder c) = opsOf c := by
   unfold optimiseNoReorder
   rw [dropMid_keeps_ops, liftGbk_keeps_ops, fuse_keeps_ops]
+
+/-- Table obligation (re-read from the running code on every run): an operator that does not itself
+    claim `reorder_safe_with_value_only` is never movable — the trait default is `false` whatever its
+    other flags say — and an operator that overrides nothing is not movable and costs 10. -/
+theorem trait_defaults_conservative :
+    Generated.dynOpDefaults =
+      [(false, false, false, 10), (false, true, false, 10), (true, false, false, 10), (true, true, false, 10)] ∧
+    Generated.bareOpFlags = ⟨false, false, false, 10⟩ := by decide
 
 end IB
